@@ -170,7 +170,7 @@ func AddStandardFilters(fd FilterDictionary) { //nolint: gocyclo
 	fd.AddFilter("append", func(s, suffix string) string {
 		return s + suffix
 	})
-	fd.AddFilter("capitalize", func(s, suffix string) string {
+	fd.AddFilter("capitalize", func(s string) string {
 		if len(s) == 0 {
 			return s
 		}
@@ -178,11 +178,11 @@ func AddStandardFilters(fd FilterDictionary) { //nolint: gocyclo
 		r, size := utf8.DecodeRuneInString(s)
 		return string(unicode.ToUpper(r)) + s[size:]
 	})
-	fd.AddFilter("downcase", func(s, suffix string) string {
+	fd.AddFilter("downcase", func(s string) string {
 		return strings.ToLower(s)
 	})
 	fd.AddFilter("escape", html.EscapeString)
-	fd.AddFilter("escape_once", func(s, suffix string) string {
+	fd.AddFilter("escape_once", func(s string) string {
 		return html.EscapeString(html.UnescapeString(s))
 	})
 	fd.AddFilter("newline_to_br", func(s string) string {
@@ -272,7 +272,7 @@ func AddStandardFilters(fd FilterDictionary) { //nolint: gocyclo
 		}
 		return s[:end] + el
 	})
-	fd.AddFilter("upcase", func(s, suffix string) string {
+	fd.AddFilter("upcase", func(s string) string {
 		return strings.ToUpper(s)
 	})
 	fd.AddFilter("url_encode", url.QueryEscape)
